@@ -131,12 +131,22 @@ def apply_op(store, op):
 def observe(store, universe, caller_fields=("custom", "title")):
     """Every read the property talks about, as plain data."""
     obs = {}
-    ks = list(store.keys())
-    obs["keys"] = sorted(ks)
-    obs["keys_each_once"] = len(ks) == len(set(ks))
+    try:
+        ks = list(store.keys())
+        obs["keys"] = sorted(ks)
+        obs["keys_each_once"] = len(ks) == len(set(ks))
+    except Exception as e:
+        obs["keys"] = "raises:" + type(e).__name__
+        obs["keys_each_once"] = None
     for k in list(universe) + [""]:
-        c = store.contains(k)
-        d = store.is_dir(k)
+        try:
+            c = store.contains(k)
+        except Exception as e:
+            c = "raises:" + type(e).__name__
+        try:
+            d = store.is_dir(k)
+        except Exception as e:
+            d = "raises:" + type(e).__name__
         ent = {"contains": c, "is_dir": d, "is_dir_is_bool": isinstance(d, bool)}
         if k != "":
             try:
@@ -156,7 +166,7 @@ def observe(store, universe, caller_fields=("custom", "title")):
                 ent["meta"] = "KeyNotFound"
             except Exception as e:
                 ent["meta"] = "raises:" + type(e).__name__
-        if d:
+        if d is True or (d and not isinstance(d, str)):
             try:
                 ld = store.listdir(k)
                 ld = list(ld) if ld is not None else None
